@@ -404,7 +404,8 @@ class Ident:
     """Goal `lhs == rhs` meant as a polynomial identity modulo the path's
     equational hypotheses; routed to the ideal-membership back end first."""
 
-    def __init__(self, lhs, rhs):
+    def __init__(self, lhs, rhs, when=None):
+        self.when = None if when is None else _b(when)
         self.lhs = lift(lhs)
         self.rhs = lift(rhs)
         if z3.is_int(self.lhs):
@@ -413,10 +414,15 @@ class Ident:
             self.rhs = z3.ToReal(self.rhs)
 
     def formula(self):
+        if self.when is not None:
+            return z3.Implies(self.when, self.lhs == self.rhs)
         return self.lhs == self.rhs
 
 
-def ident(lhs, rhs):
-    if not is_sym(lhs) and not is_sym(rhs):
-        return abs(lhs - rhs) <= 1e-9 * max(1.0, abs(lhs), abs(rhs))
-    return Ident(lhs, rhs)
+def ident(lhs, rhs, when=None):
+    """lhs == rhs as a polynomial identity (optionally only under the condition `when`)."""
+    if not is_sym(lhs) and not is_sym(rhs) and not is_sym(when):
+        if when is not None and not when:
+            return True
+        return abs(lhs - rhs) <= 1e-7 * max(1.0, abs(lhs), abs(rhs))
+    return Ident(lhs, rhs, when)
